@@ -30,7 +30,7 @@ RULE = ("one case = one executed schedule of one scenario; distinct = distinct s
 ASSUMPTIONS = ["one actor runs at a time (sequentially consistent interleavings of bytecode instructions; CPython's GIL gives no weaker behaviour)",
                "preemption points are the instructions of router.py/location_table.py that read or write attributes or subscripts, call, compare, test membership, enter a function or close a loop iteration (a superset of where CPython 3.12 hands over the GIL)",
                "a started timer may expire at any later instant until cancel() has been called (threading.Timer semantics)"]
-REQUIRED_COUNTERS = ["schedules", "preempted_schedules", "timer_fired_between", "sn.judged", "cbf.instances_judged", "cbf.cancel_vs_expiry_races",
+REQUIRED_COUNTERS = ["schedules", "preempted_schedules", "timer_fired_between", "sn.judged", "cbf.instances_judged", "cbf.cancel_vs_expiry_races", "cbf.rebuffered_after_cancellation_judged",
                      "pv.judged", "ls.requests_judged", "ls.reply_vs_request_races", "lock_waits"]
 
 LAT, LON = 415000000, 21000000
@@ -51,7 +51,7 @@ def instrument():
 
 
 # --------------------------------------------------------------------------------------------- scenarios
-def gen_scenario(rng, fam):
+def gen_scenario(rng, fam, force_rebuffer=None):
     n_act = rng.choice((2, 2, 3, 3, 4))
     actors = []
     tag = [0]
@@ -81,9 +81,17 @@ def gen_scenario(rng, fam):
         actors = [[] for _ in range(n_act)]
         for i, f in enumerate(frames):
             actors[i % n_act].append(f)
+        rebuffer = (rng.random() < 0.35) if force_rebuffer is None else force_rebuffer
+        if rebuffer:
+            # duplicate list of length 1: the packet is buffered, cancelled by its duplicate, pushed out of the duplicate
+            # list by another packet of the same source and buffered again while the first contention timer may still be
+            # armed -- the cancelled instance must never be the one that is transmitted
+            actors = [[] for _ in range(n_act)]
+            actors[0] = [{"op": "rx", "frame": "gbc0"}, {"op": "rx", "frame": "gbc0dup"}, {"op": "rx", "frame": "gbc0q"}, {"op": "rx", "frame": "gbc0again"}]
         for a in actors:
             if not a or (len(a) < 3 and rng.random() < 0.3):
                 a.append({"op": rng.choice(("gbc", "refresh", "rx_shb2")), "tag": t()})
+        return {"fam": fam, "actors": actors, "prefire_ls": False, "seedpos": rng.randrange(1000), "rebuffer": rebuffer}
     elif fam == "ls":
         actors = [[] for _ in range(n_act)]
         nreq = rng.choice((1, 2, 2, 3))
@@ -176,6 +184,8 @@ def build(spec):
         over = {"itsGnBeaconServiceRetransmitTimer": 0}
         if spec["fam"] == "cbf":
             over["itsGnAreaForwardingAlgorithm"] = AreaForwardingAlgorithm.CBF
+            if spec.get("rebuffer"):
+                over["itsGnDPLLength"] = 1
         mib = MIB(itsGnLocalGnAddr=me_addr, **over)
         r = RM.Router(mib)
         ctx.router = r
@@ -225,6 +235,9 @@ def build(spec):
                 x = {"sn": 700 + p, "so_pv": spv(10 + p, -9000, 300 * p), "area": ar}
                 frames[f"gbc{p}"] = W.enc_packet({**bh, "rhl": 5}, chd, x, body)
                 frames[f"gbc{p}dup"] = W.enc_packet({**bh, "rhl": 4}, chd, x, body)
+                if p == 0:
+                    frames["gbc0again"] = W.enc_packet({**bh, "rhl": 9}, chd, x, body)
+                    frames["gbc0q"] = W.enc_packet({**bh, "rhl": 5}, chd, {**x, "sn": 710}, b"\x07\xd1\x00\x00" + b"\xB0" * 6)
             d_pv = spv(30, 90000, 0)
             frames["lsrep"] = W.enc_packet({**bh, "rhl": 9}, {"nh": 0, "ht": W.HT_LS, "hst": 1, "tc": tc0, "mobile": 1, "pl": 0, "mhl": 10},
                                            {"sn": 41, "so_pv": d_pv, "de_pv": me_spv}, b"")
@@ -360,7 +373,7 @@ def judge(ctx, res):
             if pl[4:7] == b"TAG":
                 tags_sent.setdefault(pl[7], []).append((step, who, c["ht"]))
         elif so is not None and "sn" in x and c["ht"] == W.HT_GBC:
-            cbf_tx.setdefault((so["addr"]["mid"], x["sn"]), []).append((step, who))
+            cbf_tx.setdefault((so["addr"]["mid"], x["sn"]), []).append((step, who, b["rhl"]))
     res.count("sn.judged", len(sns))
     seen = {}
     for sn, ht, hst, who, step in sns:
@@ -388,15 +401,29 @@ def judge(ctx, res):
             ntx = len(cbf_tx.get(key, []))
             if ntx > ins.get(key, 0) - rem_dup.get(key, 0):
                 bad.append(("cbf-sent-after-cancel-or-twice", f"{key}: buffered {ins.get(key, 0)} cancelled {rem_dup.get(key, 0)} transmitted {ntx}"))
-            if ntx > 1:
-                bad.append(("cbf-sent-after-cancel-or-twice", f"{key}: transmitted {ntx} times"))
+            # one transmission per packet -- except that a packet which left the (length 1) duplicate list and arrived again
+            # is a new packet as far as the station can tell: one transmission per buffered instance, told apart by RHL
+            rh = [t_[2] for t_ in cbf_tx.get(key, [])]
+            if (ntx > 1 and not spec.get("rebuffer")) or len(set(rh)) != len(rh):
+                bad.append(("cbf-sent-after-cancel-or-twice", f"{key}: transmitted {ntx} times (RHLs {rh})"))
             if rem_dup.get(key, 0) and rem_to.get(key, 0) + rem_dup.get(key, 0) > ins.get(key, 0):
                 bad.append(("cbf-instance-consumed-twice", f"{key}"))
+        if spec.get("rebuffer"):
+            key0 = (mid(10), 700)
+            res.count("cbf.rebuffer_schedules")
+            if rem_dup.get(key0, 0) and ins.get(key0, 0) >= 2:
+                res.count("cbf.rebuffered_after_cancellation_judged")
+                # the first instance (received with RHL 5, so sent with RHL 4) was cancelled by the duplicate
+                if any(t_[2] == 4 for t_ in cbf_tx.get(key0, [])):
+                    bad.append(("cbf-cancelled-instance-transmitted", f"{key0}: the copy whose cancellation had completed was transmitted (RHL 4) after the packet had been buffered anew"))
+                elif not cbf_tx.get(key0):
+                    bad.append(("cbf-rebuffered-instance-never-transmitted", f"{key0}"))
         if len(ctx.router._cbf_buffer):
             bad.append(("cbf-instance-stuck", f"{len(ctx.router._cbf_buffer)} entries after all timers expired"))
-        cancels = [t for t in s.trace if t[0] == "timer-cancel"]
+        # executions in which a buffered copy was discarded by a duplicate AND a contention timer expired between two
+        # instructions of another actor (counted from the buffer log, not from Timer.cancel calls: how the code cancels is its business)
         fires = [t for t in s.trace if t[0] == "timer-fire"]
-        if cancels and fires:
+        if sum(rem_dup.values()) and fires:
             res.count("cbf.cancel_vs_expiry_races")
     # LS conservation
     unknown_tags = [o["tag"] for ops in spec["actors"] for o in ops if o["op"] == "guc_unknown"]
@@ -484,7 +511,8 @@ def shards(tier, seed):
     n_scn = {"quick": 2, "thorough": 5}[tier]
     for fam in ("origin", "cbf", "ls"):
         for i in range(n_scn):
-            spec = gen_scenario(rng, fam)
+            # every tier has one CBF scenario of the buffered-cancelled-buffered-again kind
+            spec = gen_scenario(rng, fam, force_rebuffer=(i == 0) if fam == "cbf" else None)
             for mode, nsh in NSHARD[tier].items():
                 for sh in range(nsh):
                     out.append({"spec": spec, "mode": mode, "shard": sh, "nshards": nsh, "tier": tier, "seed": seed * 1000 + i})
